@@ -417,17 +417,40 @@ func minimiseAndConfirm(f foundViol) (string, Violation, bool) {
 		sc = sc.Clone()
 		sc.Race = false
 	}
+	// The race detector keeps a bounded, randomly evicted history per memory word:
+	// whether a given racy execution is *reported* is not a pure function of the
+	// schedule. Reports are never invented, so a race scenario gets several attempts.
+	attempts := 1
+	if v.Class == "data-race" {
+		attempts = 3
+	}
 	oracle := func(c *Scenario) bool {
-		vs, err := execInChild(c)
-		if err != nil {
-			if os.Getenv("RUXSIM_DEBUG") != "" {
-				fmt.Fprintln(os.Stderr, "ruxsim: candidate execution failed:", err)
+		for i := 0; i < attempts; i++ {
+			vs, err := execInChild(c)
+			if err != nil {
+				if os.Getenv("RUXSIM_DEBUG") != "" {
+					fmt.Fprintln(os.Stderr, "ruxsim: candidate execution failed:", err)
+				}
+				return false
 			}
-			return false
+			if sameViolation(vs, v.Class, v.Sig) != nil {
+				return true
+			}
 		}
-		return sameViolation(vs, v.Class, v.Sig) != nil
+		return false
+	}
+	writeReplay := func(s *Scenario, got *Violation) string {
+		s.Expect = &Expect{Class: got.Class, Sig: got.Sig, Detail: got.Detail}
+		path := filepath.Join(verifDir(), "out", "replays", fmt.Sprintf("%s-%s-%d-%d.json", sc.Property, v.Class, sc.Seed, sc.Run))
+		os.WriteFile(path, s.JSON(), 0o644)
+		return path
 	}
 	if !oracle(sc) {
+		if v.Class == "data-race" {
+			// the worker's report (both stacks are in the detail) stands; the replay file is the scenario as found
+			fmt.Fprintln(os.Stderr, "ruxsim: the race was reported by the worker but not again in", attempts, "fresh executions of the same scenario; reporting it unminimised")
+			return writeReplay(sc.Clone(), &v), v, true
+		}
 		fmt.Fprintln(os.Stderr, "ruxsim: the scenario as found did not fail again in a fresh process")
 		return "", v, false
 	}
@@ -436,19 +459,22 @@ func minimiseAndConfirm(f foundViol) (string, Violation, bool) {
 		budget = 240
 	}
 	small := Shrink(sc, oracle, budget)
-	vs, err := execInChild(small)
-	if err != nil {
-		return "", v, false
+	var got *Violation
+	for i := 0; i < 2*attempts && got == nil; i++ {
+		vs, err := execInChild(small)
+		if err != nil {
+			return "", v, false
+		}
+		got = sameViolation(vs, v.Class, v.Sig)
 	}
-	got := sameViolation(vs, v.Class, v.Sig)
 	if got == nil {
+		if v.Class == "data-race" {
+			return writeReplay(sc.Clone(), &v), v, true
+		}
 		fmt.Fprintln(os.Stderr, "ruxsim: the minimised scenario did not fail again in a fresh process:", string(small.JSON()))
 		return "", v, false
 	}
-	small.Expect = &Expect{Class: got.Class, Sig: got.Sig, Detail: got.Detail}
-	path := filepath.Join(verifDir(), "out", "replays", fmt.Sprintf("%s-%s-%d-%d.json", sc.Property, v.Class, sc.Seed, sc.Run))
-	os.WriteFile(path, small.JSON(), 0o644)
-	return path, *got, true
+	return writeReplay(small, got), *got, true
 }
 
 func cmdReplay(args []string) int {
@@ -464,6 +490,12 @@ func cmdReplay(args []string) int {
 	if err != nil {
 		fmt.Fprintln(os.Stderr, err)
 		return 2
+	}
+	for i := 0; i < 7 && sc.Expect != nil && sc.Expect.Class == "data-race" && sameViolation(vs, "data-race", "") == nil; i++ {
+		if vs, err = execInChild(sc); err != nil { // the detector's report depends on its bounded shadow state: several attempts
+			fmt.Fprintln(os.Stderr, err)
+			return 2
+		}
 	}
 	if sc.Expect != nil {
 		if got := sameViolation(vs, sc.Expect.Class, sc.Expect.Sig); got != nil {
